@@ -30,7 +30,7 @@ def _has_yield(node) -> bool:
 
 
 class FlowTranslator:
-    def __init__(self, module, enc_class, guard_tests, callee_mode=False, guard_stmt=None):
+    def __init__(self, module, enc_class, guard_tests, callee_mode=False, guard_stmt=None, delivery_stmt=None):
         """guard_tests: list of expected test sources, outermost first (one entry, or two for the nested form).
         guard_stmt: alternatively the source of an assignment/expression statement that IS the guard
         (a call whose callee carries the check, proved separately)."""
@@ -39,6 +39,7 @@ class FlowTranslator:
         self.guard_tests = guard_tests
         self.callee_mode = callee_mode
         self.guard_stmt = guard_stmt
+        self.delivery_stmt = delivery_stmt      # source of an expression statement that counts as "delivery"
         self.guards_found = 0
 
     # ---- guard recognition
@@ -120,6 +121,8 @@ class FlowTranslator:
         if self.guard_stmt and isinstance(s, (ast.Assign, ast.Expr)) and ast.unparse(s.value) == self.guard_stmt:
             self.guards_found += 1
             return "GGuard"
+        if self.delivery_stmt and isinstance(s, ast.Expr) and ast.unparse(s.value) == self.delivery_stmt:
+            return self.seq(["GAny", "GYield"])
         if isinstance(s, ast.Expr) and isinstance(s.value, (ast.Yield, ast.YieldFrom)):
             inner = s.value.value
             if inner is not None and _has_yield(inner):
@@ -217,3 +220,56 @@ def skeleton(module_name, qualname, enc_class, guard_tests, callee_mode=False, g
     tr = FlowTranslator(module, enc_class, guard_tests, callee_mode=callee_mode, guard_stmt=guard_stmt)
     term = tr.block(body)
     return term, tr.guards_found
+
+
+def zip_two_pass(module_name, qualname, enc_class, guard_test, admit_stmt):
+    """The ZIP route checks the flag of every member in a first loop and yields in a second one.  Returns
+    (pass1_body_term, guards, prefix_term): pass1_body_term is the body of the first `for ... in zf.infolist()`
+    with the admission statement (append to the work list) as the delivery point; prefix_term is everything
+    of the with-block before the second loop (must contain no yield).  Fails closed if the shape differs."""
+    module = importlib.import_module(module_name)
+    tree = ast.parse(inspect.getsource(module))
+    fn = find_function(tree, qualname)
+    withs = [n for n in ast.walk(fn) if isinstance(n, ast.With) and "ZipFile" in ast.unparse(n.items[0].context_expr)]
+    if len(withs) != 1:
+        raise FlowError(f"{qualname}: expected exactly one `with ...ZipFile(...)`")
+    body = withs[0].body
+    loops = [i for i, s in enumerate(body) if isinstance(s, ast.For)]
+    if len(loops) != 2 or "infolist()" not in ast.unparse(body[loops[0]].iter):
+        raise FlowError(f"{qualname}: expected two loops, the first over zf.infolist()")
+    # nothing that can yield may precede the with-block either
+    for n in ast.walk(fn):
+        if isinstance(n, (ast.Yield, ast.YieldFrom)) and n.lineno < body[loops[1]].lineno:
+            raise FlowError(f"{qualname}: yield at line {n.lineno} before the second loop")
+    if any(isinstance(n, (ast.Yield, ast.YieldFrom)) for s in body[loops[1] + 1:] for n in ast.walk(s)):
+        pass  # yields after the second loop are irrelevant for the ordering claim
+    tr = FlowTranslator(module, enc_class, [guard_test], delivery_stmt=admit_stmt)
+    p1 = tr.block(body[loops[0]].body)
+    tr2 = FlowTranslator(module, enc_class, [guard_test])
+    prefix = tr2.block(body[:loops[1]])
+    work = ast.unparse(body[loops[1]].iter)
+    if work not in admit_stmt:
+        raise FlowError(f"{qualname}: second loop iterates {work}, not the list the first loop fills")
+    return p1, tr.guards_found, prefix
+
+
+def statements_before_guard(module_name, qualname, guard_tests, guard_stmt=None):
+    """Sources (one line each) of the simple statements that execute before the guard, in source order."""
+    module = importlib.import_module(module_name)
+    tree = ast.parse(inspect.getsource(module))
+    fn = find_function(tree, qualname)
+    gline = None
+    for n in ast.walk(fn):
+        if isinstance(n, ast.If) and guard_tests and ast.unparse(n.test) == guard_tests[0]:
+            gline = n.lineno
+        if guard_stmt and isinstance(n, (ast.Assign, ast.Expr)) and ast.unparse(n.value) == guard_stmt:
+            gline = n.lineno
+    if gline is None:
+        return None
+    out = []
+    for n in ast.walk(fn):
+        if isinstance(n, (ast.Assign, ast.AnnAssign, ast.AugAssign, ast.Expr, ast.Return, ast.Raise)) and n.lineno < gline:
+            if isinstance(n, ast.Expr) and isinstance(n.value, ast.Constant):
+                continue
+            out.append((n.lineno, ast.unparse(n).split("\n")[0][:70]))
+    return [s for _, s in sorted(out)]
